@@ -186,15 +186,7 @@ def compare_asset(base, other, asset, mm, job):
     return None
 
 
-def run(tier, build, replay=None):
-    out = core.Outcome("C17", tier)
-    proofs = core.check_proofs(build, "C17.v")
-    mm = c16.model_matrix(build)
-    if replay:
-        groups = [(replay["base"], [replay["variant"]])]
-    else:
-        bases, rng = base_jobs(tier, mm)
-        groups = [(b, variants(b, rng, mm)) for b in bases]
+def judge_groups(groups, out, mm, counts, nontrivial):
     flat = []
     for b, vs in groups:
         flat.append(b)
@@ -203,13 +195,15 @@ def run(tier, build, replay=None):
         j["dump"] = "full"
     results = l6.run_jobs(flat)
     it = iter(results)
-    counts, nontrivial = {}, set()
     for b, vs in groups:
         rb = next(it)
         if rb["rc"] != 0:
-            for _ in vs:
-                next(it)
             # a failing base run is C16's business; it still must fail the same way every time
+            for v in vs:
+                rv = next(it)
+                if v["kind"] in ("twice", "hashseed", "permuted") and (rv["rc"], sorted(reports(rv))) != (rb["rc"], sorted(reports(rb))):
+                    out.violation(f"{c16.describe(b)}: failing run is not reproducible under `{v['kind']}`: exit {rb['rc']} files {sorted(reports(rb))} / "
+                                  f"exit {rv['rc']} files {sorted(reports(rv))}", {"base": b, "variant": v}, tags={"kind=" + v["kind"]})
             continue
         for v in vs:
             rv = next(it)
@@ -249,15 +243,32 @@ def run(tier, build, replay=None):
                         "alone": f"{v.get('alone')} alone in file and configuration vs all assets"}[v["kind"]]
                 out.violation(f"{c16.describe(b)}: {desc}: {what}", case, tags=tags)
             nontrivial.add(core.case_hash([v["kind"], v["country"], v["opts"], v.get("hashseed"), v.get("row_perm"), v["inp"]]))
+    return len(flat)
+
+
+def run(tier, build, replay=None):
+    out = core.Outcome("C17", tier)
+    proofs = core.check_proofs(build, "C17.v")
+    mm = c16.model_matrix(build)
+    if replay:
+        groups = [(replay["base"], [replay["variant"]])]
+    else:
+        bases, rng = base_jobs(tier, mm)
+        groups = [(b, variants(b, rng, mm)) for b in bases]
+    counts, nontrivial = {}, set()
+    n_runs = 0
+    BATCH = 25          # groups per batch: bounds the memory held by the full cell dumps
+    for k in range(0, len(groups), BATCH):
+        n_runs += judge_groups(groups[k:k + BATCH], out, mm, counts, nontrivial)
     core.proofs_verdict(out, proofs, build, "C17.v")
     out.coverage.update({
-        "evaluations": len(flat),
+        "evaluations": n_runs,
         "distinct_nontrivial": len(nontrivial),
         "rule": "pairs (base run, variant run) of real subprocess runs on generated valid multi-asset inputs (2-3 assets, all five entry points, "
                 "methods, languages, windows, mixed schedules); variants: identical rerun, PYTHONHASHSEED 1 and a seed-derived value, dirty output "
                 "directory, permuted rows/tables/sheets, -a <asset> for every asset, asset alone in file and configuration; every pair is non-trivial",
         "samples": [{"cmd": c16.describe(b), "variants": [v["kind"] for v in vs]} for b, vs in groups[:2]],
-        "traces_validated_against_impl": len(flat),
+        "traces_validated_against_impl": n_runs,
         "pairs_by_kind": counts,
         "comparison": "content.xml of every report: per sheet, per row, per cell (value type, value, formula, text); report cells carry no input row numbers, "
                       "so the permuted runs are compared cell for cell as well",
